@@ -2578,3 +2578,82 @@ def _(it, a, info):
     if x.cls == 'fin':
         return z3.simplify(x.milli < 0)
     return z3.BoolVal(x.cls == 'ninf')
+
+
+# ------------------------------------------------------------------------------ closures through Fn traits, Read::take, Duration extras, panicking
+
+@model('Fn::call', 'FnMut::call_mut', 'FnOnce::call_once')
+def _fn_call(it, a, info):
+    f = a[0]
+    args = a[1].fields if (len(a) > 1 and isinstance(a[1], Struct)) else list(a[1:])
+    return it.call_callable(f, list(args))
+
+
+@model('thread::panicking', 'panicking')
+def _(it, a, info):
+    return z3.BoolVal(bool(it.ctx.data.get('panicking', False)))
+
+
+class TakeObj(Opaque):
+    def __init__(self, inner, limit):
+        Opaque.__init__(self, 'Take')
+        self.inner = inner
+        self.limit = limit
+
+    def read(self, it, buf):
+        if it.ctx.branch(self.limit == 0):
+            return Ok(bv(0))
+        n = z3.simplify(z3.If(z3.ULT(buf.len, self.limit), buf.len, self.limit))
+        r = reader_read(it, self.inner, sub(buf, bv(0), n))
+        if r.variant == 'Ok':
+            self.limit = z3.simplify(self.limit - r.fields[0])
+        return r
+
+
+@model('Read::take')
+def _(it, a, info):
+    inner = a[0]
+    if not isinstance(inner, Ref):
+        inner = Ref(Cell(inner), (), True)
+    return TakeObj(inner, a[1])
+
+
+@model('Duration::saturating_sub', 'Duration::checked_sub', 'Duration::checked_add', 'Duration::saturating_add',
+       'Duration::is_zero', 'Duration::as_nanos', 'Duration::as_micros', 'Duration::subsec_millis', 'Duration::subsec_micros',
+       'Duration::from_micros', 'Duration::min', 'Duration::max', 'Duration::abs_diff')
+def _(it, a, info):
+    m = info['method']
+    x = dur_ns(deref(it, a[0])) if isinstance(deref(it, a[0]), Struct) else a[0]
+    S = z3.simplify
+    if m == 'is_zero':
+        return S(x == 0)
+    if m == 'as_nanos':
+        return S(z3.ZeroExt(64, x))
+    if m == 'as_micros':
+        return S(z3.ZeroExt(64, z3.UDiv(x, bv(1000))))
+    if m == 'from_micros':
+        return duration_ns(S(a[0] * bv(1000)))
+    if m in ('subsec_millis', 'subsec_micros'):
+        r = it.ctx.fresh_bv('ns_r')
+        q = it.ctx.fresh_bv('ns_q')
+        it.ctx.add(z3.And(z3.ULT(r, bv(NS)), z3.ULE(q, bv(1 << 34)), q * bv(NS) + r == x))
+        return S(z3.Extract(31, 0, z3.UDiv(r, bv(1000000 if m == 'subsec_millis' else 1000))))
+    y = dur_ns(deref(it, a[1]))
+    if m == 'saturating_sub':
+        return duration_ns(S(z3.If(z3.ULT(x, y), bv(0), x - y)))
+    if m == 'checked_sub':
+        if it.ctx.branch(z3.ULT(x, y)):
+            return NONE()
+        return Some(duration_ns(S(x - y)))
+    if m in ('checked_add', 'saturating_add'):
+        r = S(x + y)
+        if m == 'checked_add':
+            return Some(duration_ns(r))
+        return duration_ns(r)
+    if m == 'min':
+        return duration_ns(S(z3.If(z3.ULT(x, y), x, y)))
+    if m == 'max':
+        return duration_ns(S(z3.If(z3.ULT(x, y), y, x)))
+    if m == 'abs_diff':
+        return duration_ns(S(z3.If(z3.ULT(x, y), y - x, x - y)))
+    raise Unsupported('Duration::' + m)
